@@ -10,7 +10,7 @@ extern "C" {
 using namespace vp;
 using namespace xm;
 
-const TargetInfo vp_info = {"c07_pad", 4, 1500};
+const TargetInfo vp_info = {"c07_pad", 16, 1500};
 
 static int pad_amount(Choice& c) {
   static const int A[] = {0, 1, 2, 3, 4, 250, 251, 252, 253, 254, 255, 256, 257, 258, 508, 509, 510, 511, 512, 764, 765, 766, 1020, 1275, 1276, 1277};
@@ -66,9 +66,9 @@ static int check_single(Choice& c, Report& rep, const std::vector<uint8_t>& pkt)
   // ---- pad
   int amount = pad_amount(c);
   int new_len = len + amount;
-  int argkind = c.irange(0, 19);      // 0: new_len < len, 1: len 0
-  if (argkind == 0 && len > 0) new_len = c.irange(0, len - 1);
-  int call_len = (argkind == 1) ? 0 : len;
+  int argkind = c.irange(0, 19);      // 18: new_len < len, 19: len 0
+  if (argkind == 18 && len > 0) new_len = c.irange(0, len - 1);
+  int call_len = (argkind == 19) ? 0 : len;
   HeapBuf<uint8_t> b((size_t)std::max(new_len, call_len));
   memset(b.p, 0xEE, b.n);
   if (call_len) memcpy(b.p, pkt.data(), (size_t)call_len);
@@ -78,7 +78,8 @@ static int check_single(Choice& c, Report& rep, const std::vector<uint8_t>& pkt)
   if (new_len < len) { VP_REQUIRE(r == OPUS_BAD_ARG, "c07:pad-shrinking-accepted", "pad(len %d, new_len %d) returned %d", len, new_len, r); rep.label("pad:bad-arg"); return 0; }
   if (new_len == len) { VP_REQUIRE(r == OPUS_OK && !memcmp(b.p, pkt.data(), (size_t)len), "c07:pad-same-length", "pad(len == new_len == %d) returned %d or changed the packet", len, r); rep.label("pad:same-length"); return 0; }
   if (!f.m.ok) { VP_REQUIRE(r == OPUS_INVALID_PACKET, "c07:pad-accepts-invalid", "pad of an invalid packet (%d bytes) returned %d", len, r); rep.label("pad:invalid"); return 0; }
-  if (!f.ext_ok) rep.label("pad:unparsable-padding");
+  // known finding F12: padding that is not a well-formed extension sequence makes pad fail with OPUS_INTERNAL_ERROR
+  if (!f.ext_ok) { rep.label("pad:f12-class"); if (rep.exclude("F12")) return 0; }
   VP_REQUIRE(r == OPUS_OK, !f.ext_ok ? "c07:pad-fails-on-arbitrary-padding" : "c07:pad-error", "pad(%d -> %d) of a valid packet (%d frames, code %d, padding %d bytes, %zu extensions) returned %d", len, new_len, f.m.count, pkt[0] & 3, f.m.padding_len, total(f.exts), r);
   Facts g = facts_of(b.p, new_len, false);
   VP_REQUIRE(g.m.ok, "c07:pad-invalid-packet", "pad(%d -> %d): the %d bytes are not a valid packet", len, new_len, new_len);
@@ -167,7 +168,7 @@ static int check_multistream(Choice& c, Report& rep) {
   int amount = pad_amount(c);
   int new_len = len + amount;
   int argkind = c.irange(0, 19);
-  if (argkind == 0 && len > 0) new_len = c.irange(0, len - 1);
+  if (argkind == 19 && len > 0) new_len = c.irange(0, len - 1);
   HeapBuf<uint8_t> b((size_t)std::max(new_len, len));
   memset(b.p, 0xEE, b.n);
   if (len) memcpy(b.p, all.data(), (size_t)len);
@@ -178,7 +179,7 @@ static int check_multistream(Choice& c, Report& rep) {
   if (new_len == len) { VP_REQUIRE(r == OPUS_OK && !memcmp(b.p, all.data(), (size_t)len), "c07:ms-pad-same-length", "ms pad(len == new_len) returned %d or changed the packet", r); return 0; }
   if (!valid) { VP_REQUIRE(r < 0, "c07:ms-pad-accepts-invalid", "ms pad of an invalid %d-stream packet returned %d", n, r); rep.label("ms:pad-invalid"); return 0; }
   const Facts& last = st[(size_t)(n - 1)];
-  if (!last.ext_ok) rep.label("ms:pad-unparsable-padding");
+  if (!last.ext_ok) { rep.label("pad:f12-class"); if (rep.exclude("F12")) return 0; }
   VP_REQUIRE(r == OPUS_OK, !last.ext_ok ? "c07:pad-fails-on-arbitrary-padding" : "c07:ms-pad-error", "ms pad(%d -> %d, %d streams) returned %d", len, new_len, n, r);
   std::vector<Facts> st2; std::vector<int> off2;
   VP_REQUIRE(split_streams(b.p, new_len, n, st2, off2), "c07:ms-pad-invalid-packet", "ms pad(%d -> %d, %d streams): result does not split into %d valid streams of exactly that length", len, new_len, n, n);
